@@ -48,9 +48,9 @@ theorem charRound (c : Char) : (if c.toNat.isValidChar then Char.ofNat c.toNat e
     congr 1
     exact charRound c
 
-/-- pushing predicate-free steps inside a predicate operand (predEvalPath odd): elements are appended -/
+/-- pushing predicate-free steps inside a predicate operand (after the key name: predEvalPath ≥ 1): elements are appended -/
 theorem exec_ssteps (fx : Bool) (t : Tree) (steps : List SStep) (s : MSt) (top : Path) (rest : List Path)
-    (hp : s.paths = top :: rest) (hc : s.predCount > 0) (he : s.predEvalPath % 2 = 1) :
+    (hp : s.paths = top :: rest) (hc : s.predCount > 0) (he : s.predEvalPath ≥ 1) :
     exec fx t (steps.map sstepCode) s =
       .ok { s with paths := { top with elems := top.elems ++ steps.map sstepElem } :: rest } := by
   induction steps generalizing s top with
@@ -64,7 +64,7 @@ theorem exec_ssteps (fx : Bool) (t : Tree) (steps : List SStep) (s : MSt) (top :
             { top with elems := top.elems ++ [{ name := "..".toList }] } rfl hc he]
       simp [sstepElem, List.append_assoc]
     | name n =>
-      have hcond : ¬ (s.predCount > 0 ∧ s.predEvalPath % 2 = 0) := by omega
+      have hcond : ¬ (s.predCount > 0 ∧ s.predEvalPath = 0) := by omega
       simp only [sstepCode, step, pushElem, hp, R_bind_ok, R_pure]
       simp only [hcond, decide_false, Bool.false_eq_true, ↓reduceIte, Bool.and_eq_true, decide_eq_true_eq, R_bind_ok]
       rw [ih { s with paths := { top with elems := top.elems ++ [{ name := runesToStr (strToRunes n) }] } :: rest }
@@ -200,6 +200,7 @@ def operandPath (here : Path) (p : SPath) : Path :=
 /-- operands covered by the theorem -/
 def okOp : Operand → Prop
   | .scalar e => GoodScalar e
+  | .scalarP _ _ => False        -- function results over argument paths: compared (stream c02), not part of the theorem
   | _ => True
 
 def operandDatum (t : Tree) (here : Path) : Operand → Datum
@@ -207,6 +208,7 @@ def operandDatum (t : Tree) (here : Path) : Operand → Datum
   | .num x => .num x
   | .scalar e => (match evalM env0 e with | .ok d => d | .error _ => .invalid)
   | .path p => t.value (operandPath here p)
+  | .scalarP _ _ => .invalid
 
 def operandReqs (here : Path) : Operand → List String
   | .path p => navReq (operandPath here p)
@@ -231,6 +233,7 @@ theorem exec_operand (t : Tree) (hf : NoFault t) (op : Operand) (hs : okOp op) (
       ncalls := s.ncalls + (operandReqs here op).length,
       predEvalPath := pe } := by
   cases op with
+  | scalarP e ps => exact hs.elim
   | lit l =>
     refine ⟨1, Or.inl rfl, ?_⟩
     simp [operandCode, exec, step, operandDatum, operandReqs, ← he]
@@ -274,6 +277,7 @@ def ValidTree (t : Tree) : Prop := ∀ p, t.value p ≠ .invalid
 theorem operandDatum_valid (t : Tree) (hv : ValidTree t) (here : Path) (op : Operand) (hs : okOp op) :
     operandDatum t here op ≠ .invalid := by
   cases op with
+  | scalarP e ps => exact hs.elim
   | lit l => simp [operandDatum]
   | num x => simp [operandDatum]
   | path p => exact hv _
@@ -311,6 +315,7 @@ theorem exec_pred (t : Tree) (hf : NoFault t) (hv : ValidTree t) (k : Str) (op :
 theorem operandValue_eq (t : Tree) (here : Path) (op : Operand) (hs : okOp op) :
     operandValue t here op = (litOf (operandDatum t here op), operandReqs here op) := by
   cases op with
+  | scalarP e ps => exact hs.elim
   | lit l => simp [operandValue, operandDatum, operandReqs, litOf, Datum.toLit]
   | num x => simp [operandValue, operandDatum, operandReqs, litOf, Datum.toLit, XS.stringOfNumber]
   | scalar e =>
@@ -412,7 +417,7 @@ theorem exec_step (t : Tree) (hf : NoFault t) (hv : ValidTree t) (st : Step) (hg
     refine ⟨s.isLLF, ?_⟩
     simp [stepCode, exec, step, pushElem, hp, stepPath]
   | named n preds =>
-    have hcond : ¬ (s.predCount > 0 ∧ s.predEvalPath % 2 = 0) := by omega
+    have hcond : ¬ (s.predCount > 0 ∧ s.predEvalPath = 0) := by omega
     by_cases hnil : preds = []
     · subst hnil
       refine ⟨s.isLLF, ?_⟩
@@ -420,7 +425,7 @@ theorem exec_step (t : Tree) (hf : NoFault t) (hv : ValidTree t) (st : Step) (hg
     · refine ⟨false, ?_⟩
       have hne : preds.isEmpty = false := by cases preds <;> simp_all
       simp only [stepCode, hne, Bool.false_eq_true, ↓reduceIte, List.cons_append, List.nil_append, exec]
-      have hb : (decide (s.predCount > 0) && decide (s.predEvalPath % 2 = 0)) = false := by simp [hc]
+      have hb : (decide (s.predCount > 0) && decide (s.predEvalPath = 0)) = false := by simp [hc]
       simp only [step, pushElem, hp, hb, Bool.false_eq_true, ↓reduceIte, R_bind_ok, R_pure, runesToStr_strToRunes]
       have h2 := exec_preds t hf hv preds hg
         { s with paths := { p with elems := p.elems ++ [{ name := n }] } :: rest, preds := [] :: s.preds }
